@@ -270,6 +270,9 @@ def env_generator_attrs(ctx: Ctx):
     mtvrp_horizon_guard(ctx)
     mtvrp_windows_ordered(ctx)
     customer_rows_on_every_path(ctx)
+    _gbase = ctx.repo.get_class(UT, "Generator")
+    writes_reach_the_tensor(ctx, [c for c in ctx.repo.subclasses(_gbase) if c.module.name.startswith("rl4co.envs")])
+    mtvrp_scaling_under_one_condition(ctx)
     # C18.f: MTVRP generator -- time windows / service times are times, built from distances through the speed
     from .. import units
     menv = EnvA(ctx.repo, T.ALL_ENVS["MTVRPEnv"], "MTVRPEnv")
@@ -278,6 +281,74 @@ def env_generator_attrs(ctx: Ctx):
         raise AnalysisError("MTVRPGenerator._generate not analysable")
     ctx.fn(gsl_.fi)
     units.obligations(ctx, "C18.f", "MTVRPGenerator._generate", gsl_.it, gsl_.fr, gsl_.where, 15, declared_out=units.MTVRP_CELLS)
+
+
+def writes_reach_the_tensor(ctx: Ctx, gens):
+    """C18.t an indexed assignment in a generator writes into the tensor it names.  `a[i][j] = v` evaluates `a[i]` first: with a
+    basic index (ints, slices) that is a view and the write lands in `a`; with an ADVANCED index (a boolean mask, an index
+    tensor -- recognised as a comparison, an inversion or another subscript expression inside the index) it is a COPY, and the
+    assignment silently changes nothing (a feature flag that was meant to be switched on stays off).  Every Subscript store /
+    augmented store in the generator modules and rl4co/envs/common/utils.py."""
+    mods = {g.module.relpath: g.module for g in gens}
+    mods[UT] = ctx.repo.module_by_path(UT)
+    n = 0
+    for rel, mi in sorted(mods.items()):
+        for st in ast.walk(mi.tree):
+            tgs = st.targets if isinstance(st, ast.Assign) else ([st.target] if isinstance(st, ast.AugAssign) else [])
+            for t in tgs:
+                if not isinstance(t, ast.Subscript):
+                    continue
+                n += 1
+                if not isinstance(t.value, ast.Subscript):
+                    continue
+                inner = t.value.slice
+                parts = inner.elts if isinstance(inner, ast.Tuple) else [inner]
+                adv = [ast.unparse(x)[:40] for x in parts if isinstance(x, (ast.Compare, ast.Subscript)) or (isinstance(x, ast.UnaryOp) and isinstance(x.op, ast.Invert))]
+                if adv:
+                    ctx.ob("C18.t", f"{rel}:{st.lineno}:write-reaches-the-tensor", False, f"{rel}:{st.lineno}",
+                           f"`{ast.unparse(t)[:70]} = ...`: the inner index {adv[0]} is an advanced index, `{ast.unparse(t.value)[:50]}` is a copy and the assignment is lost",
+                           construct=f"{rel}:chained-index-write:{ast.unparse(t.value.value)[:30]}")
+    ctx.ob("C18.t", "generators:indexed-writes", True, UT, f"{n} indexed assignments in {len(mods)} generator modules read; none writes through an advanced-indexed temporary")
+    if n < 20:
+        raise AnalysisError(f"indexed assignments in generator modules lost: {n} < 20")
+
+
+def mtvrp_scaling_under_one_condition(ctx: Ctx):
+    """C18.u MTVRP: demands are divided by the capacity and the capacity by itself under ONE condition (`scale_demand`): a
+    capacity normalised to 1 next to raw demands 1..9 makes every customer infeasible; raw capacity next to normalised demands
+    removes the constraint.  The in-place divisions of demand_linehaul / demand_backhaul / vehicle_capacity in `_generate` sit
+    under identical chains of enclosing conditions."""
+    env = EnvA(ctx.repo, T.ALL_ENVS["MTVRPEnv"], "MTVRPEnv")
+    g, gsl = generator_slot(ctx.repo, env.cls)
+    fi = gsl.fi
+    ctx.fn(fi)
+    chains = {}
+
+    # the capacity is the name divided by itself in place; the demands are the names divided by it (local names are not relied on)
+    selfdiv = [st.target.id for st in ast.walk(fi.node) if isinstance(st, ast.AugAssign) and isinstance(st.op, ast.Div) and isinstance(st.target, ast.Name)
+               and isinstance(st.value, ast.Name) and st.value.id == st.target.id]
+    if len(set(selfdiv)) != 1:
+        raise AnalysisError(f"MTVRPGenerator._generate: the in-place normalisation of the capacity (`c /= c`) was not found ({selfdiv})")
+    cap = selfdiv[0]
+
+    def go(body, conds):
+        for st in body:
+            if isinstance(st, ast.AugAssign) and isinstance(st.op, ast.Div) and isinstance(st.target, ast.Name) and isinstance(st.value, ast.Name) and st.value.id == cap:
+                chains.setdefault("capacity" if st.target.id == cap else f"demand:{len([k for k in chains if k.startswith('demand')]) if st.target.id not in names_ else names_[st.target.id]}", []).append(tuple(conds))
+                names_.setdefault(st.target.id, len(names_))
+            if isinstance(st, ast.If):
+                go(st.body, conds + [ast.unparse(st.test)])
+                go(st.orelse, conds + ["not " + ast.unparse(st.test)])
+            elif isinstance(st, (ast.For, ast.While, ast.With, ast.Try)):
+                go(getattr(st, "body", []), conds)
+    names_ = {}
+    go(fi.node.body, [])
+    if "capacity" not in chains or len(chains) < 3:
+        raise AnalysisError(f"MTVRPGenerator._generate: in-place rescaling statements not found ({sorted(chains)})")
+    vals = {k: sorted(set(v)) for k, v in chains.items()}
+    ok = len({tuple(v) for v in vals.values()}) == 1 and all(len(v) == 1 and v[0] for v in vals.values())
+    ctx.ob("C18.u", "MTVRPGenerator._generate:rescaling-under-one-condition", ok, fi.loc,
+           f"conditions of the in-place divisions: { {k: [' and '.join(c) or 'unconditional' for c in v] for k, v in vals.items()} }", construct="MTVRPGenerator._generate:rescaling-conditions")
 
 
 def job_span_forms(end, start):
